@@ -25,6 +25,7 @@ import (
 	"github.com/go-text/typesetting/di"
 	"github.com/go-text/typesetting/language"
 	"github.com/go-text/typesetting/shaping"
+	"golang.org/x/text/unicode/bidi"
 	"pgregory.net/rapid"
 
 	"verif/internal/ev"
@@ -347,6 +348,78 @@ func cat(parts ...[]rune) []rune {
 	return out
 }
 
+// checkDelimTable checks the library's table itself against independent data: sorted (it is
+// binary-searched), an even number of entries, every Bidi_Paired_Bracket member (x/text) sits at
+// the index parity of its type (opening = even), and the by-construction pairs (truePairs) are
+// table pairs. This is what reveals a shifted table, which the bracket clause — now driven by the
+// table — cannot see by itself.
+func checkDelimTable(t ev.TB) {
+	fail := func(format string, args ...any) {
+		ev.Fail(t, "delimtable", map[string]any{"table": tableSource}, format, args...)
+	}
+	if tableSource == "" {
+		ev.Note("paired delimiter table not readable under $VERIF_REPO: the bracket clause falls back to %d built-in pairs", len(truePairs))
+		return
+	}
+	if !tableSorted {
+		fail("pairedDelims is not strictly increasing (it is binary-searched)")
+	}
+	if len(libDelims) != 2*len(tablePairs) {
+		fail("pairedDelims has %d distinct entries for %d pairs", len(libDelims), len(tablePairs))
+	}
+	for _, p := range tablePairs {
+		for side, r := range p {
+			if pr, _ := bidi.LookupRune(r); pr.IsBracket() && pr.IsOpeningBracket() != (side == 0) {
+				fail("pairedDelims: %U (Bidi_Paired_Bracket_Type opening=%v) sits at a %s index (pair %U %U)", r, pr.IsOpeningBracket(), []string{"opener", "closer"}[side], p[0], p[1])
+			}
+			if language.LookupScript(r).Strong() {
+				fail("pairedDelims: %U has the script %s and is therefore never looked up", r, language.LookupScript(r))
+			}
+		}
+	}
+	for _, p := range truePairs {
+		if trueOpen[p[0]] != p[1] {
+			fail("pairedDelims: %U and %U are not an (opener, closer) pair of the table", p[0], p[1])
+		}
+	}
+}
+
+// TestEnumPairs: every pair of the library's table x 8 script-change contexts x {LTR, RTL}: the
+// closer must come back to the script of its opener (bracket clause of the oracle).
+func TestEnumPairs(t *testing.T) {
+	loadFaces()
+	shard, _ := ev.Shard()
+	if shard != 0 {
+		return
+	}
+	checkDelimTable(t)
+	seg := new(shaping.Segmenter)
+	var total, nt int64
+	fm := fmSpec{Kind: 1, K: 0, WithScript: true}
+	const zhe, alef, beta = 0x0416, 0x05D0, 0x03B2
+	for _, p := range tablePairs {
+		o, c := p[0], p[1]
+		texts := [][]rune{
+			{'a', ' ', o, zhe, zhe, c, ' ', 'a'},        // Latin context, Cyrillic inside
+			{'a', o, zhe, c},                            // closer last
+			{o, 'a', ' ', zhe, c, zhe},                  // opener first (script resolved later)
+			{'a', o, alef, c, 'a'},                      // pair crosses bidi run boundaries
+			{alef, o, 'a', ' ', alef, 'a', c, alef},     // right-to-left context
+			{'a', '(', o, zhe, c, zhe, ')', 'a'},        // inside another pair
+			{'a', o, beta, '(', zhe, ')', zhe, c, beta}, // around another pair
+			{'a', o, zhe, o, beta, c, beta, c, zhe},     // nested in itself
+		}
+		for _, tx := range texts {
+			for _, d := range []di.Direction{di.DirectionLTR, di.DirectionRTL} {
+				enumRun(t, seg, tx, 0, len(tx), d, fm, &total, &nt)
+			}
+		}
+	}
+	ev.CaseEnum(total, nt)
+	ev.LabelN("enum_pairs_case", total)
+	ev.LabelN("table_pairs", int64(len(tablePairs)))
+}
+
 // TestEnumDepth: every nesting depth 1..maxDepth on four templates x {LTR, RTL} x with/without
 // leading context.
 func TestEnumDepth(t *testing.T) {
@@ -583,6 +656,8 @@ func replayFile(t *testing.T, path string) {
 			t.Fatalf("replay %s: %v", path, err)
 		}
 		checkSplitByFace(t, &fc)
+	case "delimtable":
+		checkDelimTable(t)
 	default:
 		t.Fatalf("replay %s: unknown check %q", path, check)
 	}
